@@ -1,4 +1,4 @@
-import Proofs.TimeoutLive
+import Proofs.RefineDone
 
 /-!
 # C14 — Timeouts cancel cooperatively and every job ends in a terminal status
@@ -195,6 +195,85 @@ theorem C14_returns_steps :
       unfold stepReturn; rw [hn]; exact ⟨_, rfl, rfl⟩
     obtain ⟨s', h1, h2⟩ := hstep
     exact ⟨s', k, r, h1, hn, hr, h2⟩
+
+end DH.Timeout
+
+namespace DH.Refine
+open DH
+
+/-- **C14 (the budget theorem of C03 holds in the timeline model).**  In the per-job model, after any
+history of returned `search()` calls, a call with `max_evals = n ≥ 0` that ends by its budget (its
+own timeout, if any, did not stop it) creates `e` jobs with `n ≤ e < n + W` (`e = n` when strict),
+nothing is left running, every job ever created is in the results exactly once, and — when the call
+has no timeout — every job it created is DONE, never read CANCELLING and keeps its value, whatever the
+earlier calls' timeouts did.  The counts are obtained by transporting `C03`'s counters-level theorem
+along the simulation `C03_abstracts_C14`; the statuses from the invariant that jobs of a call acquire
+their worker under that call's deadline (`search_armed`).
+(For a call *with* a timeout that ends by budget, "all DONE" additionally needs the clock at the end
+of the drain to be before the deadline and the invariant `ret ≤ now` for finished jobs; not proved.) -/
+theorem C14_budget_transfer (W : Nat) (hW : 1 ≤ W) (specs : List Timeout.Spec) (hist : List Timeout.SCall)
+    (hp : TimeoutsPos hist)
+    (hh : ∀ st ∈ (Timeout.runSearches (Timeout.init W true specs) hist).2, Timeout.SettledStop st)
+    (c : Timeout.Call) (reps : List (List Nat)) (drainRep : List Nat)
+    (hpos : ∀ tt, c.timeout = some tt → 0 < tt) (hn : 0 ≤ c.maxEvals)
+    (hend : (Timeout.search (Timeout.runSearches (Timeout.init W true specs) hist).1 c reps drainRep).2 = .budget ∨
+            (Timeout.search (Timeout.runSearches (Timeout.init W true specs) hist).1 c reps drainRep).2 = .cap) :
+    let t := (Timeout.runSearches (Timeout.init W true specs) hist).1
+    let t' := (Timeout.search t c reps drainRep).1
+    let e := t'.jobs.length - t.jobs.length
+    c.maxEvals ≤ (e : Int) ∧ (e : Int) < c.maxEvals + W ∧ (c.strict = true → (e : Int) = c.maxEvals) ∧
+    t'.running = [] ∧ t'.results.Nodup ∧ (∀ i : Nat, i < t'.jobs.length ↔ i ∈ t'.results) ∧
+    (c.timeout = none → ∀ (i : Nat) (j : Timeout.Job), t'.jobs[i]? = some j → t.jobs.length ≤ i →
+      j.status = .done ∧ j.log = [.ready, .running, .done] ∧ j.saw = false ∧ j.output = .val j.spec.val) := by
+  intro t t' e
+  have hs : Timeout.SettledStop (Timeout.search t c reps drainRep).2 := by
+    rcases hend with h | h
+    · exact Or.inl h
+    · exact Or.inr (Or.inl h)
+  obtain ⟨b1, b2, _⟩ := runSearches_sim hist _ _ (sim_init W specs) (Timeout.rep_init W true specs) hp hh
+  obtain ⟨a1, _, a3⟩ := search_sim t _ c reps drainRep b1 b2 hpos hs
+  obtain ⟨hq, hw⟩ := induced_quiet W hW specs hist hp hh
+  have bs := Search.searchCall_budget _ (callOf c) (inducedCall t c reps) (by rw [hw]; exact hW) hq
+    (by simpa [callOf] using hn) (badTimeout_callOf c hpos)
+  have hendS : (Search.searchCall {} (Search.runCalls {} (Search.init W)
+      (inducedHist (Timeout.init W true specs) hist)).1 (callOf c) (inducedCall t c reps)).2.stop = .budget ∨
+      (Search.searchCall {} (Search.runCalls {} (Search.init W)
+      (inducedHist (Timeout.init W true specs) hist)).1 (callOf c) (inducedCall t c reps)).2.stop = .cap := by
+    rw [a1]
+    rcases hend with h | h <;> rw [h] <;> simp [convStop]
+  have h1 := bs.lower hendS
+  have h2 := bs.upper
+  have h3 := bs.strict
+  rw [a3] at h1 h2 h3
+  rw [hw] at h2
+  obtain ⟨r1, r2⟩ := Timeout.rep_search t c reps drainRep b2 hs
+  have hinv : Timeout.AllInv t.jobs := by
+    have := Timeout.runSearches_rep hist _ (Timeout.rep_init W true specs) (Timeout.allInv_init W true specs) hh
+    exact this.2
+  have hinv' := Timeout.allInv_search t c reps drainRep hinv
+  obtain ⟨c1, c2, c3⟩ := Timeout.complete_of_rep r1 r2 hinv'
+  refine ⟨by simpa [callOf] using h1, by simpa [callOf] using h2,
+    fun hst => by simpa [callOf] using h3 (by simpa [callOf] using hst) hendS, r2, c1, c2, ?_⟩
+  intro hnone i j hj hi
+  have harm := search_armed t c reps drainRep b2 hs i j hj hi
+  have hdl : (prepT t c).deadline = none := by
+    unfold prepT Timeout.setTimeout; rw [hnone]; split <;> rfl
+  rw [hdl] at harm
+  have hp := (c3 i j hj).1
+  have hg : j.pc = .gathered := by
+    rcases hp with e | e
+    · exact e
+    · exact absurd e harm.2
+  have ha : j.armed = none := by
+    rcases harm.1 with e | e | e
+    · exact e
+    · rw [hg] at e; simp at e
+    · rw [hg] at e; simp at e
+  exact Timeout.done_of_armed_none (hinv' j (List.mem_of_getElem? hj)) hg ha
+
+end DH.Refine
+
+namespace DH.Timeout
 
 /-! ### non-vacuity: concrete schedules -/
 
